@@ -28,6 +28,10 @@ pub enum Kind {
     ManyFdtIds,
     /// thousands of sessions (TSIs)
     ManySessions,
+    /// FDT-only OTI, the FDT never arrives, packets with an empty / tiny payload (header-only datagrams)
+    NoFdtCachedTinyPayload,
+    /// objects stalled by a missing symbol while NEW FDT instances keep arriving more often than the object timeout
+    StalledWithFdtUpdates,
 }
 
 #[derive(Clone, Debug, PartialEq, Serialize, Deserialize)]
@@ -48,11 +52,20 @@ pub struct Scn {
 pub struct C17;
 
 pub fn gen(idx: u64, rng: &mut Rng, tier: Tier) -> Scn {
-    let kinds = [Kind::NoFdtInband, Kind::NoFdtCached, Kind::MissingSymbol, Kind::ManyTois, Kind::ManyFdtIds, Kind::ManySessions];
-    let kind = kinds[(idx % 6) as usize];
+    let kinds = [
+        Kind::NoFdtInband,
+        Kind::NoFdtCached,
+        Kind::MissingSymbol,
+        Kind::ManyTois,
+        Kind::ManyFdtIds,
+        Kind::ManySessions,
+        Kind::NoFdtCachedTinyPayload,
+        Kind::StalledWithFdtUpdates,
+    ];
+    let kind = kinds[(idx % 8) as usize];
     let cache = *rng.pick(&[1024usize, 4096, 16 * 1024, 64 * 1024, if tier == Tier::Thorough { 1024 * 1024 } else { 32 * 1024 }]);
     let scheme = match kind {
-        Kind::MissingSymbol => Scheme::NoCode,
+        Kind::MissingSymbol | Kind::StalledWithFdtUpdates => Scheme::NoCode,
         _ => *rng.pick(&[Scheme::NoCode, Scheme::Rs28, Scheme::RaptorQ]),
     };
     Scn {
@@ -223,6 +236,23 @@ pub fn run(scn: &Scn, ctx: &Ctx, scratch: &Path) {
             traffic = crafted(scn.kind, scn.factor * 100, e);
             block_bytes = 4 * e;
         }
+        Kind::NoFdtCachedTinyPayload => {
+            // header-only datagrams of one TOI without EXT_FTI: they can only be cached
+            let plen = (scn.b as usize) % 3; // 0, 1 or 2 payload bytes
+            let n = scn.factor as usize * scn.cache / 16 + 64;
+            for i in 0..n {
+                let (tl, ol) = wire::field_lens(1, 1);
+                traffic.push(wire::encode(&Build { cci_words: 1, tsi: 1, tsi_len: tl, toi: 1, toi_len: ol, cp: 0, sbn: (i / 60000) as u32, esi: (i % 60000) as u32, payload: vec![0x33; plen], ..Default::default() }));
+            }
+            pkt_len = traffic[0].len();
+            block_bytes = 0;
+        }
+        Kind::StalledWithFdtUpdates => {
+            // handled below (needs its own clock schedule)
+        }
+    }
+    if scn.kind == Kind::StalledWithFdtUpdates {
+        return run_fdt_updates(scn, ctx, scratch, &recv);
     }
     if traffic.is_empty() {
         return;
@@ -235,8 +265,13 @@ pub fn run(scn: &Scn, ctx: &Ctx, scratch: &Path) {
     // per-object bound: cache (+ per-packet bookkeeping) + 2 blocks (+ per-symbol bookkeeping), slack 3
     let per_pkt_overhead = 400usize;
     let cached_bound = (scn.cache / pkt_len + 2) * (pkt_len + per_pkt_overhead);
-    let blocks_bound = scn.cache + 2 * (block_bytes + scn.b as usize * 64) + (scn.cache / e.max(1) + 2 * scn.b as usize) * 64;
-    let one_object_bound = 3 * (cached_bound.max(blocks_bound)) + 64 * 1024;
+    // decoded-but-unwritten blocks: cache + 2 blocks of data, plus what each live block decoder costs beyond
+    // its data (Reed-Solomon codec matrices and inversion cache, RaptorQ/No-Code symbol tables): 16 KiB per
+    // block that may be alive at once
+    let per_block_overhead = 16 * 1024 + scn.b as usize * 64;
+    let live_blocks = scn.cache / block_bytes.max(1) + 3;
+    let blocks_bound = if block_bytes == 0 { 0 } else { scn.cache + 2 * block_bytes + live_blocks * per_block_overhead };
+    let one_object_bound = 2 * (cached_bound.max(blocks_bound)) + 64 * 1024;
     let mut t = t0_us();
     let mut worst_growth = 0usize;
     let mut max_err = 0usize;
@@ -281,25 +316,29 @@ pub fn run(scn: &Scn, ctx: &Ctx, scratch: &Path) {
     ctx.borrow_mut().nontrivial = true;
     ctx.borrow_mut().count_fault(match scn.kind {
         Kind::NoFdtInband | Kind::NoFdtCached => "drop-class-all-fdt",
+        Kind::NoFdtCachedTinyPayload => "inject-header-only-datagrams",
+        Kind::StalledWithFdtUpdates => "drop-class-one-symbol-per-block",
         Kind::MissingSymbol => "drop-class-one-symbol-per-block",
         Kind::ManyTois => "inject-many-tois",
         Kind::ManyFdtIds => "inject-many-fdt-ids",
         Kind::ManySessions => "inject-many-sessions",
     });
     match scn.kind {
-        Kind::NoFdtInband | Kind::NoFdtCached | Kind::MissingSymbol => {
+        Kind::NoFdtInband | Kind::NoFdtCached | Kind::MissingSymbol | Kind::NoFdtCachedTinyPayload => {
             let volume: usize = traffic.iter().map(|b| b.len()).sum();
+            ctx.borrow_mut().note(&format!("held/bound-decile:{:?}:{}", scn.kind, (worst_growth * 10 / one_object_bound.max(1)).min(99)));
             if worst_growth > one_object_bound {
                 violate(
                     ctx,
                     "C17/stalled-object-exceeds-cache",
                     match scn.kind {
                         Kind::NoFdtCached => "packet-cache",
+                        Kind::NoFdtCachedTinyPayload => "packet-cache-tiny-payload",
                         Kind::NoFdtInband => "decoded-blocks-without-fdt",
                         _ => "incomplete-blocks",
                     },
                     format!(
-                        "one stalled object ({:?} E={} B={}) made the receiver hold {} bytes with object_max_cache_size={} (bound {} = 3 x (cache + 2 blocks + bookkeeping)); traffic pushed: {} bytes",
+                        "one stalled object ({:?} E={} B={}) made the receiver hold {} bytes with object_max_cache_size={} (bound {} = 2 x (cache + 2 blocks + bookkeeping)); traffic pushed: {} bytes",
                         scn.scheme, scn.e, scn.b, worst_growth, scn.cache, one_object_bound, volume
                     ),
                 );
@@ -379,6 +418,78 @@ pub fn run(scn: &Scn, ctx: &Ctx, scratch: &Path) {
     let _ = baseline;
 }
 
+/// Objects stalled by a missing symbol; the sender keeps publishing NEW FDT instances more often than the
+/// object timeout; cleanup is polled. Once the object timeout has elapsed since the last packet of the
+/// stalled objects they must be released, FDT updates or not.
+fn run_fdt_updates(scn: &Scn, ctx: &Ctx, scratch: &Path, recv: &RecvSpec) {
+    let timeout_us = scn.object_timeout_ms * 1000;
+    let period_us = (timeout_us / 3).max(1000);
+    let mut spec = SenderSpec::basic(OtiSpec::new(Scheme::NoCode, 1400, 64, 0, true));
+    spec.queues = vec![(0, 4)];
+    let nobj = 4usize;
+    let mut objects = Vec::new();
+    let mut ops = Vec::new();
+    for i in 0..nobj {
+        let mut o = ObjectSpec::basic(scn.e as usize * scn.b as usize * 3, 0xC17 + i as u64, i);
+        o.md5 = false;
+        o.oti = Some(OtiSpec::new(Scheme::NoCode, scn.e, scn.b, 0, i % 2 == 0));
+        o.carousel = Some(CarouselSpec::DelayMs(1_000_000_000));
+        objects.push(o);
+        ops.push(TimedOp { when: When::AtUs(0), op: Op::Add(i) });
+    }
+    ops.push(TimedOp { when: When::AtUs(0), op: Op::Publish });
+    // 12 further publications, each a new instance id, every third of the object timeout
+    for k in 1..=12u64 {
+        ops.push(TimedOp { when: When::AtUs(k * period_us), op: Op::Publish });
+    }
+    let mut poll = PollSpec::simple(period_us / 2 + 1);
+    poll.max_polls = 40;
+    poll.idle_polls_after_done = 0;
+    let s = SenderScn { spec, objects, ops, poll, snapshots: false };
+    let sess = match run_sender(&s, ctx, scratch) {
+        Some(x) => x,
+        None => return,
+    };
+    let builder = std::rc::Rc::new(NullBuilder { writers: std::cell::Cell::new(0) });
+    let mut rr = Rr { recv: Some(flute::receiver::MultiReceiver::new(builder, Some(recv.config()), false)) };
+    let ep = EndpointSpec::default_ep().build();
+    let mut last_obj_pkt = 0u64;
+    let mut held_after_timeout = None;
+    for p in &sess.trace.pkts {
+        // one symbol of every block is lost: the objects stall
+        if p.dec.toi != 0 && p.dec.esi == 0 {
+            continue;
+        }
+        if p.dec.toi != 0 {
+            last_obj_pkt = last_obj_pkt.max(p.t_us);
+        }
+        rr.push(&ep, &p.bytes, p.t_us);
+        rr.cleanup(p.t_us);
+        if last_obj_pkt > 0 && p.t_us > last_obj_pkt + timeout_us + period_us && held_after_timeout.is_none() {
+            held_after_timeout = Some((rr.nb_objects(), p.t_us - last_obj_pkt));
+        }
+    }
+    let mut c = ctx.borrow_mut();
+    c.nontrivial = true;
+    c.count_fault("drop-class-one-symbol-per-block");
+    c.sig(&format!("fdt-updates/{}/{}/{}", scn.object_timeout_ms, scn.e, scn.b));
+    drop(c);
+    match held_after_timeout {
+        Some((n, since)) if n > 0 => violate(
+            ctx,
+            "C17/objects-survive-timeout",
+            "fdt-updates-keep-objects-alive",
+            format!(
+                "{} stalled objects are still held {} us after their last packet (object timeout {} ms) although cleanup ran after every push; a new FDT instance arrives every {} us",
+                n, since, scn.object_timeout_ms, period_us
+            ),
+        ),
+        Some(_) => {}
+        None => ctx.borrow_mut().note("skip:fdt-updates-run-too-short"),
+    }
+    rr.drop_receiver();
+}
+
 impl Prop for C17 {
     fn id(&self) -> &'static str {
         "C17"
@@ -386,8 +497,8 @@ impl Prop for C17 {
     fn info(&self) -> PropInfo {
         PropInfo {
             level: "exploration",
-            rule: "seeded adversarial traffic that keeps objects undecodable, pushed into a real receiver whose live heap is measured by a counting global allocator and whose monotonic clock is simulated (hook H1): (a) in-band FTI but the FDT never arrives, (b) FDT-only OTI and the FDT never arrives (packet cache), (c) one source symbol of every block missing, each with 20x more traffic than the configured object_max_cache_size (1 KiB - 64 KiB, 1 MiB in thorough); (d) 2000 TOIs, (e) 2000 FDT instance ids, (f) 2000 sessions that never complete. x max_objects_error 0-8 x object timeout 5 ms - 10 s x session timeout none/10 ms - 30 s x FEC scheme x E x B x cleanup cadence. Oracle: held bytes for one stalled object <= 3 x (cache + 2 blocks + bookkeeping); the object is abandoned and counted in error; nb_objects_error() <= max_objects_error after every call; after the timeouts elapsed and cleanup ran: nb_objects() == 0 and the heap is back to the level before the traffic (+ fixed allowance). Non-trivial: traffic was pushed.",
-            assumptions: vec!["bookkeeping allowance: 400 bytes per cached packet, 64 bytes per symbol slot, slack factor 3 (a missing limit shows as 20x)", "hook H1 (simulated Instant) is faithful"],
+            rule: "seeded adversarial traffic that keeps objects undecodable, pushed into a real receiver whose live heap is measured by a counting global allocator and whose monotonic clock is simulated (hook H1): (a) in-band FTI but the FDT never arrives, (b) FDT-only OTI and the FDT never arrives (packet cache), (c) one source symbol of every block missing, each with 20x more traffic than the configured object_max_cache_size (1 KiB - 64 KiB, 1 MiB in thorough); (d) 2000 TOIs, (e) 2000 FDT instance ids, (f) 2000 sessions that never complete. x max_objects_error 0-8 x object timeout 5 ms - 10 s x session timeout none/10 ms - 30 s x FEC scheme x E x B x cleanup cadence. Oracle: held bytes for one stalled object <= 2 x (cache + 2 blocks + bookkeeping); the object is abandoned and counted in error; nb_objects_error() <= max_objects_error after every call; after the timeouts elapsed and cleanup ran: nb_objects() == 0 and the heap is back to the level before the traffic (+ fixed allowance). Non-trivial: traffic was pushed.",
+            assumptions: vec!["bookkeeping allowance: 400 bytes per cached packet, 16 KiB + 64 bytes per symbol for every block decoder that may be alive (cache/block + 3), slack factor 2; the traffic is 20x the cache so a missing limit overshoots the bound by a wide margin (held/bound deciles are in the evidence)", "hook H1 (simulated Instant) is faithful"],
             real: vec!["MultiReceiver/Receiver/ObjectReceiver/FdtReceiver, all block decoders"],
             stub: vec!["network (adversarial)", "wall and monotonic clocks", "global allocator (counting)", "monitoring writer (keeps no data)"],
         }
